@@ -187,6 +187,13 @@ var variants = []variant{
 	{"trypipe", func(b string) string { return "trypipe {\n" + b + "\n}" }, func(c chain) expect { return modelTry(c, true) }},
 	{"runmode-try", func(b string) string { return "function vt {\nrunmode try function\n" + b + "\n}\nvt" }, func(c chain) expect { return modelTry(c, false) }},
 	{"runmode-trypipe", func(b string) string { return "function vt {\nrunmode trypipe function\n" + b + "\n}\nvt" }, func(c chain) expect { return modelTry(c, true) }},
+	// the same blocks used as a method (something is piped into them; the block ignores it)
+	{"method-try", func(b string) string { return "out piped -> try {\n" + b + "\n}" }, func(c chain) expect { return modelTry(c, false) }},
+	{"method-runmode-try", func(b string) string { return "function vt {\nrunmode try function\n" + b + "\n}\nout piped -> vt" }, func(c chain) expect { return modelTry(c, false) }},
+	{"method-trypipe", func(b string) string { return "out piped -> trypipe {\n" + b + "\n}" }, func(c chain) expect { return modelTry(c, true) }},
+	// a block of one kind inside a function whose run mode is the other kind: the block's own mode decides
+	{"nested-trypipe-in-try-function", func(b string) string { return "function vt {\nrunmode try function\ntrypipe {\n" + b + "\n}\n}\nvt" }, func(c chain) expect { return modelTry(c, true) }},
+	{"nested-try-in-trypipe-function", func(b string) string { return "function vt {\nrunmode trypipe function\ntry {\n" + b + "\n}\n}\nvt" }, func(c chain) expect { return modelTry(c, false) }},
 }
 
 func init() {
@@ -199,7 +206,7 @@ func init() {
 	})
 	vlib.Register(&vlib.Check{
 		ID: "C05", Engine: "E2",
-		Rule:        "the chains of C04 wrapped in try {..}, trypipe {..}, and functions using `runmode try function` / `runmode trypipe function`; stdout and exit compared with a reference model of the statement; non-trivial = the model skips a || alternative, aborts the block early, or the chain contains a pipeline",
+		Rule:        "the chains of C04 wrapped in try {..}, trypipe {..}, and functions using `runmode try function` / `runmode trypipe function` (and, for chains of up to 3 commands, the same blocks with something piped into them, and a block of one kind inside a function whose run mode is the other kind); stdout and exit compared with a reference model of the statement; non-trivial = the model skips a || alternative, aborts the block early, or the chain contains a pipeline",
 		Run:         func(c *vlib.Ctx) { run(c, variants[1:]) },
 		Replay:      func(c *vlib.Ctx, w string) { replay(c, w) },
 		Assumptions: []string{"command alphabet and chain length bound as stated; stderr is not compared"},
@@ -267,6 +274,9 @@ func run(c *vlib.Ctx, vs []variant) {
 		}
 		body := ch.src()
 		for _, v := range vs {
+			if (strings.HasPrefix(v.name, "method-") || strings.HasPrefix(v.name, "nested-")) && len(ch.k) > 3 {
+				continue // the method variants: chains of up to 3 commands
+			}
 			check(c, v, body, ch, n)
 		}
 		return true
